@@ -434,7 +434,8 @@ class Ref:
             return n
         if ret == "arg":
             return env.get("x", "NoneType")
-        return {"None": "NoneType", "0": "int", "''": "str", "False": "bool"}[ret]
+        return {"None": "NoneType", "0": "int", "''": "str", "False": "bool", "NotImplemented": "NotImplementedType",
+                "Ellipsis": "ellipsis"}[ret]
 
     # ---- invariants (C03) ---------------------------------------------------------
     def check_invs(self, invs, k, env=None):
